@@ -126,7 +126,8 @@ func VerifC16Backoff() {
 	for _, cfg := range [][2]int64{{1, 1}, {1, 4}, {2, 8}, {100, 60000}} {
 		e := exponentialBackoff{min: time.Duration(cfg[0]) * time.Millisecond, max: time.Duration(cfg[1]) * time.Millisecond}
 		prev := time.Duration(0)
-		for a := 1; a <= 12; a++ {
+		// up to 80 consecutive failures (2^attempt * min leaves the int64 range on the way)
+		for a := 1; a <= 80; a++ {
 			d := e.Duration(a)
 			vnd.Assert(d >= prev, "C16.backoff-shrinks")
 			vnd.Assert(d <= e.max, "C16.backoff-exceeds-max")
